@@ -31,7 +31,7 @@ import (
 type SyncSpec struct {
 	Lookupds int      `json:"lookupds"`
 	Faults   []string `json:"faults"` // fault per connection attempt to lookupd 1 (then "ok"): ok | refuse | close | stall | garbage | neglen | minlen | overlimit | hugelen | trunc | einvalid | restart
-	Ops      []string `json:"ops"`    // churn: mk:T | mkch:T:C | rmch:T:C | rm:T | pub:T | mkeph | tick | cfg:<digits of the lookupds to configure, "-" for none>
+	Ops      []string `json:"ops"`    // churn: mk:T | mkch:T:C | rmch:T:C | rm:T | pub:T | mkeph | tick | lkdrop | lkrestart | cfg:<digits of the lookupds to configure, "-" for none>
 	PreKnown bool     `json:"preknown"` // lookupd already knows channel "pre" of topic "fresh" (from another nsqd)
 	// HTTPFault: how the LAST lookupd answers nsqd's HTTP /channels query: "" (healthy) |
 	// refuse | 500 | garbage | empty. Its TCP side stays healthy.
@@ -308,6 +308,16 @@ func RunSync(spec SyncSpec) vx.Out {
 					bad("C16 ephemeral channel pre-created from nsqlookupd", "")
 				}
 			}
+		case "lkdrop":
+			// nsqlookupd 1 drops its connections (a network blip): nsqd reconnects with its
+			// next command or heartbeat and must register everything again
+			lks[0].CloseAll()
+		case "lkrestart":
+			// nsqlookupd 1 is restarted with empty state at the same address
+			old := lks[0]
+			old.CloseAll()
+			old.Release()
+			lks[0] = mkLookupd(0)
 		case "tick":
 			w.SleepAlive(16*time.Second, cons)
 		case "cfg":
